@@ -20,20 +20,27 @@ Proof.
   apply (HP 0 rest); [lia|exact Hf|exact Hs].
 Qed.
 
-(* with the fuel the driver uses, the answer is that tree or "out of fuel" - never another tree *)
-Theorem roundtrip_parse_l : forall tbl e rest,
+(* whatever fuel is used, the answer is that tree or "out of fuel" - never another tree, never an
+   error.  (The driver doubles the fuel until the answer is not "out of fuel".) *)
+Theorem roundtrip_any_fuel_l : forall tbl e rest,
   table_total tbl = true -> wf e = true -> folb tbl 0 rest = true ->
   safeb false (pr tbl 0 e ++ rest) = true ->
-  parse tbl (pr tbl 0 e ++ rest) = Ok (strip e, rest) \/ parse tbl (pr tbl 0 e ++ rest) = Fuel.
+  forall g, p_assign tbl g (pr tbl 0 e ++ rest) = Ok (strip e, rest) \/
+            p_assign tbl g (pr tbl 0 e ++ rest) = Fuel.
 Proof.
-  intros tbl e rest Ht Hw Hf Hs.
-  destruct (roundtrip_general_l tbl e rest Ht Hw Hf Hs) as [f H]. unfold parse.
-  set (g := enough_fuel tbl (pr tbl 0 e ++ rest)).
+  intros tbl e rest Ht Hw Hf Hs g.
+  destruct (roundtrip_general_l tbl e rest Ht Hw Hf Hs) as [f H].
   destruct (Nat.le_gt_cases f g) as [Hle|Hgt].
   - left. eapply up_assign; eassumption.
   - destruct (proj1 (mono tbl g) (pr tbl 0 e ++ rest) f) as [E|E]; [lia|right; exact E|].
     left. rewrite E. exact H.
 Qed.
+
+Theorem roundtrip_parse_l : forall tbl e rest,
+  table_total tbl = true -> wf e = true -> folb tbl 0 rest = true ->
+  safeb false (pr tbl 0 e ++ rest) = true ->
+  parse tbl (pr tbl 0 e ++ rest) = Ok (strip e, rest) \/ parse tbl (pr tbl 0 e ++ rest) = Fuel.
+Proof. intros. unfold parse. apply roundtrip_any_fuel_l; assumption. Qed.
 
 (* ------------------------------------------------------------------ parentheses *)
 Fixpoint nopar (e : expr) : bool :=
